@@ -8,7 +8,8 @@
    between two consecutive atomic accesses of the budget counter (each load and each
    compare_exchange of `cache_used` is its own step).  A shard's RwLock is modelled by its writer
    field [wl]: read-locked sections are single steps, so only a writer parked inside a budget call
-   can be observed holding a lock.
+   can be observed holding a lock.  MemoryBudget::allocate holds the budget's alloc_lock mutex from
+   its first load to its return ([alock]); site 99 is in front of it.
 
    Not modelled: the dirty flag (no behaviour depends on it), the 16 KiB page body beyond the first
    eight bytes (one integer [edata] per page), spurious failure of compare_exchange_weak, usize
@@ -157,6 +158,7 @@ Inductive pcT :=
 | PIdle
 | PGI501 (g : gi)                         (* site 501 *)
 | PCan1 (g : gi) | PCan2 (g : gi) (a : Z)
+| PAl99 (g : gi)                          (* site 99: in front of the allocate mutex *)
 | PAl0 (g : gi)
 | PAl1 (g : gi) (cur : Z)                 (* site 100 *)
 | PAl2 (g : gi) (cur tot : Z)             (* site 101 *)
@@ -173,6 +175,7 @@ Record thread := mkTh { prog : list op; pc : pcT; held : list Z; res : list resu
 
 Record st := mkSt {
   shs : list shard; used : Z; lim : Z; oth : Z; thr : list (nat * thread);
+  alock : option nat;           (* MemoryBudget::alloc_lock: held by allocate from its first load to its return *)
   glast : list (Z * Z); gleak : bool; grace : bool }.
 
 Definition set_pc (th : thread) (p : pcT) : thread := mkTh (prog th) p (held th) (res th).
@@ -203,17 +206,19 @@ Definition covered (ths : list (nat * thread)) (t : nat) (j : nat) : bool :=
 
 (* state updates *)
 Definition upd (s : st) (shs' : list shard) (used' : Z) (t : nat) (th : thread) : st :=
-  mkSt shs' used' (lim s) (oth s) (lset (thr s) t th) (glast s) (gleak s) (grace s).
+  mkSt shs' used' (lim s) (oth s) (lset (thr s) t th) (alock s) (glast s) (gleak s) (grace s).
 Definition upd_th (s : st) (t : nat) (th : thread) : st := upd s (shs s) (used s) t th.
 Definition upd_sh (s : st) (i : nat) (sh : shard) (t : nat) (th : thread) : st :=
   upd s (set_nth (shs s) i sh) (used s) t th.
 (* a step of thread t that changed the residency of shard i *)
 Definition mark_race (s : st) (t : nat) (i : nat) (s' : st) : st :=
-  mkSt (shs s') (used s') (lim s') (oth s') (thr s') (glast s') (gleak s') (grace s' || covered (thr s) t i).
+  mkSt (shs s') (used s') (lim s') (oth s') (thr s') (alock s') (glast s') (gleak s') (grace s' || covered (thr s) t i).
 Definition set_glast (s : st) (k v : Z) : st :=
-  mkSt (shs s) (used s) (lim s) (oth s) (thr s) (glast_set (glast s) k v) (gleak s) (grace s).
+  mkSt (shs s) (used s) (lim s) (oth s) (thr s) (alock s) (glast_set (glast s) k v) (gleak s) (grace s).
 Definition set_gleak (s : st) : st :=
-  mkSt (shs s) (used s) (lim s) (oth s) (thr s) (glast s) true (grace s).
+  mkSt (shs s) (used s) (lim s) (oth s) (thr s) (alock s) (glast s) true (grace s).
+Definition set_alock (s : st) (w : option nat) : st :=
+  mkSt (shs s) (used s) (lim s) (oth s) (thr s) w (glast s) (gleak s) (grace s).
 
 Definition pc_of_cont (c : cont) : option pcT :=
   match c with
@@ -390,7 +395,7 @@ Definition step (t : nat) (s : st) : option st :=
           end
       | PCan1 g => Some (upd_th s t (set_pc th (PCan2 g (used s))))
       | PCan2 g a =>
-          if PAGE_SIZE <=? available_cache (lim s) a (used s + oth s) then Some (upd_th s t (set_pc th (PAl0 g)))
+          if PAGE_SIZE <=? available_cache (lim s) a (used s + oth s) then Some (upd_th s t (set_pc th (PAl99 g)))
           else
             let i := shard_of (gk g) in
             match nth_error (shs s) i with
@@ -403,6 +408,11 @@ Definition step (t : nat) (s : st) : option st :=
                 | EPanicked sh' => Some (upd_sh s i (set_wl sh' None) t (finish th RPanic))
                 end
             end
+      | PAl99 g =>
+          match alock s with
+          | Some _ => None
+          | None => Some (set_alock (upd_th s t (set_pc th (PAl0 g))) (Some t))
+          end
       | PAl0 g => Some (upd_th s t (set_pc th (PAl1 g (used s))))
       | PAl1 g cur => Some (upd_th s t (set_pc th (PAl2 g cur (used s + oth s))))
       | PAl2 g cur tot =>
@@ -410,14 +420,14 @@ Definition step (t : nat) (s : st) : option st :=
           match nth_error (shs s) i with
           | None => None
           | Some sh =>
-              if lim s <? tot + PAGE_SIZE then Some (upd_sh s i (set_wl sh None) t (finish th RErrAlloc))
+              if lim s <? tot + PAGE_SIZE then Some (set_alock (upd_sh s i (set_wl sh None) t (finish th RErrAlloc)) None)
               else if (CACHE_RESERVED <? cur + PAGE_SIZE)
                       && (shared_available (lim s) (used s + oth s) <? cur + PAGE_SIZE - CACHE_RESERVED)
-              then Some (upd_sh s i (set_wl sh None) t (finish th RErrAlloc))
+              then Some (set_alock (upd_sh s i (set_wl sh None) t (finish th RErrAlloc)) None)
               else Some (upd_th s t (set_pc th (PAl3 g cur)))
           end
       | PAl3 g cur =>
-          if used s =? cur then Some (upd s (shs s) (cur + PAGE_SIZE) t (set_pc th (PFull g)))
+          if used s =? cur then Some (set_alock (upd s (shs s) (cur + PAGE_SIZE) t (set_pc th (PFull g))) None)
           else Some (upd_th s t (set_pc th (PAl0 g)))
       | PFull g =>
           let i := shard_of (gk g) in
@@ -514,6 +524,7 @@ Definition site_of (p : pcT) : option Z :=
   match p with
   | PIdle => Some 900          (* between two operations (a site of the harness), start and end *)
   | PGI501 _ => Some 501
+  | PAl99 _ => Some 99
   | PAl1 _ _ => Some 100
   | PAl2 _ _ _ => Some 101
   | PAl3 _ _ => Some 102
@@ -536,7 +547,7 @@ Definition init_thread (p : list op) : thread := mkTh p PIdle [] [].
 
 (* c0: bytes already charged to Pool::Cache by somebody else; o: bytes used by the other pools *)
 Definition init_st (total : nat) (limit c0 o : Z) (progs : list (nat * list op)) : st :=
-  mkSt (init_shards total) c0 limit o (map (fun p => (fst p, init_thread (snd p))) progs) [] false false.
+  mkSt (init_shards total) c0 limit o (map (fun p => (fst p, init_thread (snd p))) progs) None [] false false.
 
 (* ------------------------------------------------------------------ observations *)
 Definition total_len (s : st) : Z := fold_right (fun sh a => Z.of_nat (length (ents sh)) + a) 0 (shs s).
